@@ -45,6 +45,8 @@ checks["C17"]=dict(level="model_checking",engine="gosim",design="4/C17",techniqu
   text="2-3 concurrent real clients with distinct identities on one real Server (TCP over virtual pipes mixed with the in-process listener), Register assigning distinct addresses, handlers replying through their Sender; every schedule within the deviation bound including the handshakes; each handler's context must carry its own session's id and nodes, replies must reach only their own client, ids must be distinct and equal to the announced ones.")
 checks["C15"]=dict(level="model_checking",engine="gosim",design="4/C15",technique=SCHED_TECH,
   text="Each context-taking blocking operation (transport Send/Receive, in-process Accept, the four channel sends, ProcessCommand, client FinishSession, client and server EstablishSession at every stage including a stalled TLS upgrade) is run in isolation on the in-process and TCP transports against a silent / non-consuming peer, with its context ended by deadline or by cancellation from another goroutine; on the virtual clock (which only advances when everything is blocked) the call must return an error at the deadline, or within the 5s poll interval after a cancellation (0 in-process).")
+checks["C06"]=dict(level="model_checking",engine="gosim",design="4/C06",technique=SCHED_TECH,
+  text="Send direction: a real client/server pair runs handshake, establishment and one of three teardowns while one send call per role (each of the five send operations), released at a stage chosen as data, is placed at every position within the deviation bound; wire taps show what was really written: nothing before the established envelope, nothing after the terminating call returned, success only if written. Receive direction: every data envelope kind injected at every handshake position against the real Server and the real client channel never reaches handlers or streams and aborts the handshake.")
 na_reason={}
 m={"version":1,
  "setup_cmd":"./setup.sh",
